@@ -3,6 +3,7 @@ package main
 // HD key / WIF ops (C04, C05, C06, C15).
 
 import (
+	"bytes"
 	"crypto/hmac"
 	"crypto/sha512"
 	"encoding/binary"
@@ -21,6 +22,7 @@ func init() {
 	ops["Wif"] = opWif
 	ops["WifDecode"] = opWifDecode
 	ops["WifMutate"] = opWifMutate
+	ops["PartsPurity"] = opPartsPurity
 }
 
 // ---- environment facts ---------------------------------------------------------------
@@ -333,6 +335,55 @@ func opHD(h *HState, a Event) Event {
 }
 
 // ---- WIF ------------------------------------------------------------------------------------
+
+// opPartsPurity: an extended key assembled with NewExtendedKey from slices that live inside larger caller buffers
+// (spare capacity poisoned).  Deriving, neutering and printing must leave the caller's buffers as they were.
+func opPartsPurity(_ *HState, a Event) Event {
+	seed := gBytes(a, "seed")
+	e := with(a, "argmod", false, "which", "", "ok", false)
+	p, msg := guard(func() {
+		m, err := hdkeychain.NewMaster(seed, nets[0])
+		if err != nil {
+			return
+		}
+		src := m
+		if !gBool(a, "private") {
+			if src, err = m.Neuter(); err != nil {
+				return
+			}
+		}
+		pay := refB58Decode(src.String())
+		if len(pay) < 78 {
+			return
+		}
+		keyBytes := pay[45:78]
+		if gBool(a, "private") {
+			keyBytes = pay[46:78]
+		}
+		ver, vb := sliceWithCap(pay[0:4], 12)
+		key, kb := sliceWithCap(keyBytes, 24)
+		cc, cb := sliceWithCap(pay[13:45], 24)
+		fp, fb := sliceWithCap(pay[5:9], 12)
+		before := [][]byte{append([]byte{}, vb...), append([]byte{}, kb...), append([]byte{}, cb...), append([]byte{}, fb...)}
+		k := hdkeychain.NewExtendedKey(ver, key, cc, fp, pay[4], 0, gBool(a, "private"))
+		e["ok"] = true
+		for _, i := range []uint32{0, 1, hdkeychain.HardenedKeyStart, 7} {
+			if c, err := k.Child(i); err == nil {
+				_ = c.String()
+			}
+		}
+		k.Neuter()
+		_ = k.String()
+		k.Address(nets[0])
+		k.ECPubKey()
+		for j, bk := range [][]byte{vb, kb, cb, fb} {
+			if !bytes.Equal(bk, before[j]) {
+				e["argmod"], e["which"] = true, []string{"version", "key", "chain code", "parent fingerprint"}[j]
+			}
+		}
+	})
+	return panicField(e, p, msg)
+}
 
 // wifNet: the configured net, or a copy of it with another private-key identifier byte ("netid" >= 0 in the call)
 func wifNet(a Event) *chaincfg.Params {
